@@ -118,11 +118,16 @@ func c03Run(c *Ctx) {
 		layers = append(layers, sweepLayer{"L2", GenOpts{OneGate: true, LeafSet: 2}, 2, fs[:3]})
 	}
 	layers = append(layers, sweepLayer{"scale", GenOpts{Scale: true, ScaleThorough: c.Thorough()}, 0, fs[:3]})
+	layers = append(layers, sweepLayer{"L0-rich", GenOpts{LeafSet: 2, OneGate: true, RichEnv: true}, 0, fs[:2]})
+	var corpus []string
 	sweep(c, layers, func(sc *sweepCase) bool {
 		if sc.C.Root.HasDup() {
 			return false
 		}
 		c.Distinct(sc.Line)
+		if sc.Layer == "L0-rich" || (sc.Layer == "L0" && sc.C.Gate == 0 && sc.C.Container == 0) {
+			corpus = append(corpus, sc.Line)
+		}
 		return true
 	}, func(sc *sweepCase, fl Flags, out string, ok bool, pv any) {
 		if pv != nil {
@@ -142,6 +147,9 @@ func c03Run(c *Ctx) {
 			replayOf(sc, fl, map[string]any{"output": out}),
 			func() bool { fl.Apply(); o, k, _ := redactLine(line); s, _ := c03Eval(root, o, k); return s != "" })
 	})
+	// the shape verdicts carry over to the real CLI (file / --outputFile onto a stale file, two locales) when it emits
+	// what the in-process redaction emits
+	cliCorpusPass(c, "L0", corpus, fs[:4], true)
 	// --- T
 	paths, _ := vocabPaths(c.Src)
 	vals := tValues()
